@@ -45,6 +45,33 @@ PROPS = {
         "note": "Trusted: the dump through DB.NewInternalIterator (first copy per internal key) and the VerifResolve accessor.",
         "design_ref": "7/C12", "assumptions": E1_ASSUME,
     },
+    "C09": {
+        "engine": "dbsim", "level": "exploration", "budget": {"quick": 28, "thorough": 600},
+        "title": "With synchronous writes, acknowledged writes survive any crash",
+        "technique": "deterministic simulation with crash-fault enumeration: SyncWrites workloads (plain and transactional) with maintenance; process-crash images cut at state-changing file-system events (incl. page-torn writes); each image reopened and compared with the acknowledged batches",
+        "rule": "case = seeded workload + maintenance + configuration swarm + crash placement (every k-th state-changing FS event from an offset, up to 10 (quick) / 40 (thorough) images per run, page-torn write variants included); each image must reopen without error and contain every batch acknowledged before the image instant with exact values; distinct = distinct trace hash; non-trivial = at least one image cut after at least one accepted batch",
+        "level_text": "Seeded search over histories x crash points with enumeration of crash points inside each run; the oracle needs no read-path model beyond exact-version point reads. Sampling is the right level: the space of histories x crash points is unbounded.",
+        "note": "Trusted: SimFS crash-image model (process crash: kernel-held bytes survive, user-space buffers lost), the dump through NewInternalIterator + GetVersionedEntry.",
+        "design_ref": "7/C09", "assumptions": E1_ASSUME + ["a crash image is a copy of the working directory taken while the instance is alive, at a state-changing file-system call (optionally after only a page-aligned prefix of a write arrived); LOCK file skipped", "the set of acknowledged batches at the image instant is exact because the single client is synchronous"],
+    },
+    "C10": {
+        "engine": "dbsim", "level": "exploration", "budget": {"quick": 28, "thorough": 600},
+        "title": "Recovery after any crash yields a prefix-consistent, readable state",
+        "technique": "deterministic simulation with crash-fault enumeration: workloads with and without SyncWrites, multi-key transactions; each crash image must reopen and its complete all-version contents must equal the model after some prefix of the accepted batches",
+        "rule": "as C09 but SyncWrites in {off,on}; oracle: the recovered all-version dump equals the model state after some prefix of the accepted batches (>= the acknowledged prefix when SyncWrites), every present key is readable, no value that was never written; non-prefix states are classified (partial batch, unreadable value, never-written value, rejected batch visible, hole/reorder)",
+        "level_text": "Seeded search over histories x crash points; the oracle is an executable prefix-consistency model of the batch sequence.",
+        "note": "Trusted: as C09; batch boundaries are known exactly because the single client is synchronous.",
+        "design_ref": "7/C10", "assumptions": E1_ASSUME + ["a crash image is a copy of the working directory taken while the instance is alive, at a state-changing file-system call (optionally after only a page-aligned prefix of a write arrived); LOCK file skipped", "the set of acknowledged batches at the image instant is exact because the single client is synchronous"],
+    },
+    "C11": {
+        "engine": "dbsim", "level": "exploration", "budget": {"quick": 28, "thorough": 600},
+        "title": "Once reopened, contents change only through new writes",
+        "technique": "deterministic simulation: every reopened crash image is dumped, subjected to a seeded maintenance schedule (flush, every compaction kind, value-log GC, WAL watchdog) and a second reopen; the dump must not change",
+        "rule": "as C10 for the crash images; after reopening an image its all-version dump is taken, a generated maintenance schedule runs with no client writes, and the dump (and the dump after one more clean reopen) must be identical; non-trivial as C09",
+        "level_text": "Seeded search over crash images x maintenance schedules; oracle = equality of dumps of the same database.",
+        "note": "Trusted: as C09.",
+        "design_ref": "7/C11", "assumptions": E1_ASSUME + ["a crash image is a copy of the working directory taken while the instance is alive, at a state-changing file-system call (optionally after only a page-aligned prefix of a write arrived); LOCK file skipped", "the set of acknowledged batches at the image instant is exact because the single client is synchronous"],
+    },
 }
 
 # Merge per-engine registries (props_<engine>.py).
